@@ -5,6 +5,8 @@ package main
 
 import (
 	"fmt"
+
+	"golang.org/x/tools/go/ssa"
 	"go/types"
 	"math/big"
 	"sort"
@@ -25,7 +27,7 @@ func proveLemmas(e *engine, id string, errs *[]string) []*unit {
 			if sf.kind != "lemma" || !hasProp(sf.props, id) {
 				continue
 			}
-			u := &unit{eng: e, lemma: sf, m: mode{intMode: pc.mode == "int"}, decls: map[string]string{}, notes: map[string]bool{}, closures: map[string]*closureVal{}, siteOrd: map[string]int{}, inlined: map[string]bool{}, ghostTypes: map[string]types.Type{}}
+			u := &unit{eng: e, lemma: sf, m: mode{intMode: pc.mode == "int"}, decls: map[string]string{}, notes: map[string]bool{}, closures: map[string]*closureVal{}, siteOrd: map[string]int{}, inlined: map[string]bool{}, ghostTypes: map[string]types.Type{}, cutHeaders: map[*ssa.BasicBlock]bool{}, cutDone: map[*ssa.BasicBlock]bool{}}
 			func() {
 				defer func() {
 					if r := recover(); r != nil {
